@@ -89,6 +89,11 @@ CHECKS = {
          "670 (quick) / 4223 (thorough) configurations (1-4 tasks and fixed 6-task sets, INTERVAL absent/0/2/3 ms, PRIORITY 0/1 incl. equal, SINGLE none/g1/g2 incl. shared and mixed periodic+event, un-tasked programs, task-bound FB instance) x all timelines of depth 2-7 over dt in {0,1,2,3,7} ms x SINGLE values: executed task and program sequence and overrun counts of every cycle equal the model's.",
          "Several programs on one task, SINGLE variables written by programs, a clock moving backwards are not covered.",
          "DESIGN.md §5 C06"),
+ "C14": ("model_checking",
+         "explicit-state breadth-first search over edit histories replayed on the REAL trust-lsp binary over stdio JSON-RPC (state = history + reference editor text; merged when editor text and answers are equal); oracle = a reference editor model with UTF-16 arithmetic per LSP 3.17: the incrementally fed document and a fresh document opened with the model's text must answer formatting, semanticTokens/full, documentSymbol and pull diagnostics identically, and every position the server reports must equal the model's UTF-16 position of the corresponding lexer token",
+         "10 initial texts (ASCII, Latin-1, CJK, astral in comment and string, CRLF, mixed, empty, no trailing newline, lone CR) x every range between UTF-16 boundaries in a window (incl. one past-end-of-line column) x 6 replacements, single/two-change/full/mixed notifications; two families (wide: 1 notification, deep: 2 quick / 3 thorough).",
+         "Whitespace-only differences inside reformatted lines and line-terminator kind are invisible through the compared answers; undefined positions (inside a surrogate pair, past the last line) are not sent.",
+         "DESIGN.md §5 C14"),
 }
 
 NOT_APPLICABLE = {
